@@ -1,6 +1,8 @@
 /- Line-protocol driver: one case per input line, one canonical answer line per case. -/
 import Dblib.Model.PacketQueueDriver
 import Dblib.Model.Isolation
+import Dblib.Model.ChanRxDriver
+import Dblib.Model.UseDriver
 import Dblib.Model.PacketReaderDriver
 import Dblib.Model.Mux
 import Dblib.Model.Life
@@ -19,6 +21,8 @@ def handle (line : String) : String :=
   match words line with
   | "pq" :: args => PQ.run args
   | "iso" :: args => Isolation.run args
+  | "rx" :: args => Codec.runRx args
+  | "use" :: args => Codec.runUse args
   | "rd" :: args => Reader.run args
   | "mux" :: args => Mux.run args
   | "life" :: args => Life.run args
